@@ -655,6 +655,55 @@ func runLookupSync(lc *lsCase, dir string) {
 			lds[0] = nl
 		}
 		return
+	case "precreate3":
+		// the connection to the (healthy) nsqlookupd has just been dropped and nsqd has noticed, but has not reconnected yet:
+		// a topic first created at that moment still starts with the channels that nsqlookupd knows for it
+		st, err := httpPost("http://" + lds[0].http + "/channel/create?topic=fresh3&channel=pre")
+		if err != nil || st != 200 {
+			lc.Incon = "lookupd channel create failed"
+			return
+		}
+		proxies[0].set("pass", "", true) // every established connection dies; new ones pass
+		// nsqd notices on its next command to that peer: the REGISTER of an unrelated topic
+		admin("/topic/create?topic=trigger3")
+		time.Sleep(time.Duration(lc.Seed%4) * heartbeat / 4)
+		oc, err := dial(nd.TCP, "other3")
+		if err != nil {
+			lc.Incon = err.Error()
+			return
+		}
+		defer oc.close()
+		oc.identify(nil)
+		if err := oc.sub("fresh3", "other"); err != nil {
+			lc.Incon = err.Error()
+			return
+		}
+		oc.cmd("RDY", "", "1")
+		if st, _, err := nd.post("/pub?topic=fresh3", []byte("first")); err != nil || st != 200 {
+			lc.failf("first publish to a fresh topic failed right after the nsqlookupd connection was dropped: %v %d", err, st)
+			return
+		}
+		if fr, ok := oc.next(5 * time.Second); !ok || fr.Type != 2 {
+			lc.Incon = "the other channel did not get the message"
+			return
+		}
+		cn, err := dial(nd.TCP, "pre3")
+		if err != nil {
+			lc.Incon = err.Error()
+			return
+		}
+		defer cn.close()
+		cn.identify(nil)
+		if err := cn.sub("fresh3", "pre"); err != nil {
+			lc.Incon = err.Error()
+			return
+		}
+		cn.cmd("RDY", "", "1")
+		fr, ok := cn.next(5 * time.Second)
+		if !ok || fr.Type != 2 || string(fr.Body) != "first" {
+			lc.failf("[precreate] the connection to a healthy nsqlookupd had just been dropped; it knew channel `pre` for topic `fresh3`, which did not receive the topic's first message")
+		}
+		return
 	case "precreate":
 		// lookupd already knows channel `pre` for topic `fresh`: the very first message must reach it
 		st, err := httpPost("http://" + lds[0].http + "/channel/create?topic=fresh&channel=pre")
